@@ -97,12 +97,26 @@ pub fn generate(data: &[u16], o: &HistOpts) -> (History, HistStats) {
                 let saved: Vec<VarInfo> = g.scope.clone();
                 g.scope.retain(|v| v.name != name);
                 let pure_ = g.c.chance(1, 2);
-                let shape = g.c.below(4);
+                let shape = g.c.below(6);
                 let callee = fns.iter().filter(|f| f.name != name).cloned().collect::<Vec<_>>();
+                if shape == 4 {
+                    // the global holds a native function: callers compiled while it does must still see a
+                    // later redefinition
+                    let native = ["abs", "-", "+", "*", "square"][g.c.below(5)];
+                    g.scope = saved;
+                    g.scope.retain(|v| v.name != name);
+                    g.scope.push(VarInfo { name: name.clone(), ty: Ty::Proc { n: 1, rest: false, pure_: false }, mutable: false, global: true });
+                    steps.push(one(Top::Define(name, var(native))));
+                    continue;
+                }
                 let body: Body = if shape == 0 && !callee.is_empty() {
                     // the body *is* a global call: the reference sits in the first instruction
                     let f = &callee[g.c.below(callee.len())];
                     Body::single(app(&f.name, vec![var("x")]))
+                } else if shape == 5 && !callee.is_empty() {
+                    // a call of another global in non-tail position
+                    let f = &callee[g.c.below(callee.len())];
+                    Body::single(app("+", vec![app(&f.name, vec![var("x")]), int(g.c.range(0, 9))]))
                 } else if shape == 1 && !vars.is_empty() && !pure_ {
                     // only assigns a global (the SET opcode carries the slot)
                     let v = &vars[g.c.below(vars.len())];
